@@ -29,7 +29,7 @@ ASSUMPTIONS = [
     "(WithDefaults.wd_wf_forest) and LYD_PRINT_KEEPEMPTYCONT off; C07_dflt_flag_sound assumes sound flags on the input; "
     "C07_validate_canon assumes a canonical input. The correspondence run evaluates these executable hypotheses / conclusions "
     "(Q / W fields of the model's answer) on EVERY tree libyang hands to or gets from a validation / print of the generated "
-    "histories and reports a tree that breaks one as a property failure (the listed deviations dflt-nested-case-leftover, "
+    "histories and reports a tree that breaks one as a property failure (the listed deviations "
     "dflt-leaflist-partial, vdiff-np-container, wd-leaflist-partial-default are such trees)",
     "schemas: chc_okb / schema_okb / sids_uniqb / keys_plainb (checked on every generated schema, field K); one module, no when / must / unique / "
     "leafref, no opaque nodes; LYD_VALIDATE_PRESENT only (an empty tree is not validated)",
